@@ -77,6 +77,13 @@ func c11Arbitrary(heights []int64) *c11State {
 			row[d] = c11NonNeg(fmt.Sprint("M", h, "_", d))
 			mb.Data = append(mb.Data, &MatureData{Address: s.delegs[d], Amount: *balance.NewAmountFromBigInt(row[d]), Height: h})
 		}
+		// a delegator may have several entries in one record (two unstakes in one
+		// block, or from two validators): delegator 0 may have a second one
+		if sv.Choice(fmt.Sprint("M", h, "_0.second"), 2) == 1 {
+			extra := c11NonNeg(fmt.Sprint("M", h, "_0b"))
+			mb.Data = append(mb.Data, &MatureData{Address: s.delegs[0], Amount: *balance.NewAmountFromBigInt(extra), Height: h})
+			row[0] = new(big.Int).Add(row[0], extra)
+		}
 		s.M[h] = row
 		s.st.SetMatureAmounts(h, mb)
 	}
@@ -128,7 +135,7 @@ func (s *c11State) checkInvariant() (E [2][2]*big.Int) {
 // SV_C11_store_step: one Stake / Unstake / Withdraw / UpdateWithdrawReward
 // with arbitrary arguments from an arbitrary invariant-satisfying state.
 //
-// sv:bounds 2 validators x 2 delegators; all locked, bounded and maturing amounts arbitrary >= 0; maturing records at heights {9, 20}, each delegator's entry in them present or absent; operation amount any integer >= 0 (store-level precondition); unstake height in {9, 20, 31}; block-end height in {9, 20}
+// sv:bounds 2 validators x 2 delegators; all locked, bounded and maturing amounts arbitrary >= 0; maturing records at heights {9, 20}, each delegator's entry in them present or absent, delegator 0 possibly with a second entry in the same record; operation amount any integer >= 0 (store-level precondition); unstake height in {9, 20, 31}; block-end height in {9, 20}
 // sv:outside histories (inductive step); more than 2x2 parties
 // sv:goal the invariant (validator stake = sum of its delegators' locked amounts, all amounts >= 0) is preserved; unstake moves exactly the amount from locked to the maturing record of the given height and nowhere else; only the block-end step of height h moves maturing[h] (and exactly that) to withdrawable and clears it; withdraw never exceeds the withdrawable amount; the potential locked+maturing+withdrawable of a delegator changes only by a stake (+) or a withdraw (-)
 func SV_C11_store_step() {
